@@ -300,10 +300,10 @@ pub(crate) fn build_production_model(
             .ok_or_else(|| anyhow!("Non-terminal '{}' not found", nt))
     };
 
-    let get_terminal_index = |tr: &str, l: &Option<LookaheadExpression>| -> Result<TerminalIndex> {
+    let get_terminal_index = |tr: &str, k: TerminalKind, l: &Option<LookaheadExpression>| -> Result<TerminalIndex> {
         terminals
             .iter()
-            .position(|(t, _, look, _)| *t == tr && look == l)
+            .position(|(t, k0, look, _)| *t == tr && k.behaves_like(*k0) && look == l)
             .map(|i| i as TerminalIndex + parol_runtime::lexer::FIRST_USER_TOKEN)
             .ok_or_else(|| anyhow!("Terminal '{}' with lookahead not found", tr))
     };
@@ -322,7 +322,7 @@ pub(crate) fn build_production_model(
                     Symbol::N(n, ..) => {
                         get_non_terminal_index(n).map(ProductionSymbolModel::NonTerminal)
                     }
-                    Symbol::T(Terminal::Trm(t, _, _, attr, _, _, l0)) => get_terminal_index(t, l0)
+                    Symbol::T(Terminal::Trm(t, k, _, attr, _, _, l0)) => get_terminal_index(t, *k, l0)
                         .map(|index| ProductionSymbolModel::Terminal {
                             index,
                             clipped: *attr == SymbolAttribute::Clipped,
